@@ -260,6 +260,32 @@ def _traj(spec, ctx, R):
             Ap = refq.matmul(V[:, :r] * (1.0 / s)[None, :], refq.herm(U[:, :r]))
             d = refq.fro(XK - Ap) / refq.fro(Ap)
             ctx.check("limit_penrose", d, lb, site=site + ":distance_to_pinv", tags=tg(K, d, lb, 1.0), detail={"K": K})
+        # ONE solver object used for several problems in a row (a solver is configured once and applied many times): every call returns
+        # the iterate and the histories of THAT call only - same length and same values as a fresh solver's
+        if spec["idx"] % 3 == 0:
+            kk2 = min(K, 5)
+            try:
+                obj = solver(kk2)
+                other = refq.randq(rng, n, m) if (m, n) != (1, 1) else refq.randq(rng, 2, 1)
+                obj.compute(other)                                     # an unrelated problem first
+                r1 = obj.compute(gen.layout(A, "C"))
+                r2 = obj.compute(gen.layout(A, "C"))
+                rf = solver(kk2).compute(gen.layout(A, "C"))
+
+                def hist_of(rr):
+                    return (rr[1], rr[2]) if not third else (rr[1], None)
+                ok_all = True
+                for rr in (r1, r2):
+                    hres, hcov = hist_of(rr)
+                    fres, fcov = hist_of(rf)
+                    ok_all &= all(len(hres[key]) == len(fres[key]) and np.allclose(hres[key], fres[key], rtol=1e-9, atol=0.0) for key in fres)
+                    if fcov is not None:
+                        ok_all &= len(hcov) == len(fcov) and bool(np.allclose(hcov, fcov, rtol=1e-9, atol=0.0))
+                    ok_all &= bool(np.array_equal(refq.fa(rr[0]), refq.fa(rf[0])))
+                ctx.hit("history:solver_object_reused")
+                ctx.check("history_lengths", bool(ok_all), site=site + ":reused_solver_object", tags=base_tags, detail={"budget": kk2, "shape": [m, n]})
+            except Exception as e:
+                ctx.check("history_lengths", False, site=site + ":reused_solver_object", tags=base_tags, detail={"exception": repr(e)[:200]})
         # dense vs sparse input (damped solver only)
         if not third and track and spec["idx"] % 2 == 0:
             kk = min(K, 6)
